@@ -51,6 +51,18 @@ def patched(sched: Scheduler) -> Iterator[dict]:
         sched.point("control.count_failure")
         return orig_count_failure(self)
 
+    import schemathesis.engine.phases.unit._executor as unit_executor
+
+    orig_setup_key = unit_executor.setup_hypothesis_database_key
+    saved.append((unit_executor, "setup_hypothesis_database_key", orig_setup_key))
+
+    def setup_hypothesis_database_key(test: Any, operation: Any) -> None:
+        # the per-operation Hypothesis test object is prepared here and *used* right after: a point in between makes
+        # "another worker prepares its own test now" an explorable schedule (state shared between tests would show)
+        orig_setup_key(test, operation)
+        sched.point("test_prepared")
+
+    unit_executor.setup_hypothesis_database_key = setup_hypothesis_database_key
     ExecutionControl.is_stopped = property(is_stopped)  # type: ignore[assignment]
     ExecutionControl.count_failure = count_failure  # type: ignore[method-assign]
     try:
